@@ -510,6 +510,29 @@ func runSession(s Session, force, header bool) (*sessionOut, *mon.Result) {
 		out.obs["requests"]++
 		out.obs["wire_bytes"] += int64(len(m.Raw))
 		arg := q.Arg.Str()
+		if len(arg) < 4096 {
+			if strings.Contains(arg, "<?") {
+				out.obs["args_with_processing_instruction"]++
+			}
+			if strings.Contains(arg, "<?xml-") {
+				out.obs["args_with_pi_target_starting_with_xml"]++
+			}
+			if k := strings.Index(arg, "<?xml "); k >= 0 {
+				if strings.TrimLeft(arg[:k], "\ufeff \n") == "" {
+					out.obs["args_with_leading_xml_declaration"]++
+				} else {
+					out.obs["args_with_xml_declaration_inside_cdata_or_comment"]++
+				}
+			}
+			if strings.Contains(arg, "\ufeff") {
+				out.obs["args_with_bom"]++
+			}
+			if strings.Contains(arg, "]]>]]>") {
+				out.obs["args_with_eom_delimiter_in_1.1_payload"]++
+			} else if strings.Contains(arg, "]]]]>") || strings.Contains(arg, "]]&gt;]]") || strings.Contains(arg, "]] >") {
+				out.obs["args_with_eom_lookalike"]++
+			}
+		}
 		if !isASCII(arg) || !isASCII(q.Persist) || !isASCII(q.PersistID) || !isASCII(q.DS) {
 			out.obs["requests_with_multibyte_argument"]++
 		}
@@ -655,7 +678,7 @@ func Run(s Session) mon.Result {
 				}
 				return *viol0(c, i, s.Reqs[i], &ncsim.Server{})
 			}
-			if _, err := parseDoc(main.inputs[i]); err != nil {
+			if _, err := parseDoc(main.inputs[i], strings.Contains(s.Reqs[i].Arg.Str(), "<?xml")); err != nil {
 				return *viol0(bad("c03/self-closing-rewrite:not-well-formed", "forced Input is not well-formed: %v", err), i, s.Reqs[i], &ncsim.Server{})
 			}
 			obs["empty_pairs_self_closed"] += int64(rw)
@@ -716,7 +739,7 @@ func init() {
 			"Non-trivial = at least 2 requests on the stream and at least one caller argument with markup or multi-byte characters. Distinct = distinct descriptor hash.",
 		Assumptions: []string{
 			"caller arguments are well-formed XML content in valid UTF-8 (generated by construction); datastore names are valid XML names; with-defaults modes are the four RFC 6243 modes; confirm-timeout <= 4294967295",
-			"arguments never contain the 1.0 delimiter ]]>]]> (it cannot occur in well-formed content)",
+			"arguments of 1.0 sessions never contain the delimiter ]]>]]> (1.1 sessions carry it inside comments and attribute values); a BOM or an XML declaration the caller itself puts into an argument is forwarded verbatim by the pinned library and that is the reference",
 			"the request must carry exactly what the caller asked for whatever the server hello announced (with-defaults / xpath / confirmed-commit / ... capabilities present or absent in PRNG combinations)",
 			"the server answers every request at once with <ok/> (except the planned unanswered requests of the noanswer sessions); the client-side reading of replies is not judged here (C02/C08)",
 			"whitespace-only element content counts as empty for the self-closing option (the option's documented intent)",
